@@ -13,6 +13,7 @@ import (
 	"strconv"
 	"strings"
 	"sync"
+	"sync/atomic"
 	"time"
 
 	"github.com/FollowTheProcess/spok/ast"
@@ -308,6 +309,11 @@ func syntaxMain(args []string) error {
 	return bw.Flush()
 }
 
+// number of inputs that killed or hung a child so far (all chunks); beyond synMaxBad the remaining inputs are recorded as not-run
+var synBad atomic.Int64
+
+const synMaxBad = 12
+
 // syntaxRunChunk runs lines[lo:hi] through child processes; an input on which the child dies or hangs gets a synthetic record.
 func syntaxRunChunk(lines, results [][]byte, lo, hi int, mode string) error {
 	self, err := os.Executable()
@@ -316,6 +322,15 @@ func syntaxRunChunk(lines, results [][]byte, lo, hi int, mode string) error {
 	}
 	next := lo
 	for next < hi {
+		if synBad.Load() >= synMaxBad {
+			for i := next; i < hi; i++ {
+				var in synIn
+				json.Unmarshal(lines[i], &in)
+				b, _ := json.Marshal(map[string]any{"i": in.I, "outcome": "not-run"})
+				results[i] = b
+			}
+			return nil
+		}
 		cmd := exec.Command(self, "syntax", "--mode", mode)
 		cmd.Env = append(os.Environ(), "DRIVE_CHILD=1")
 		var stdin bytes.Buffer
@@ -357,6 +372,7 @@ func syntaxRunChunk(lines, results [][]byte, lo, hi int, mode string) error {
 			return nil
 		}
 		// input `got` killed or hung the child
+		synBad.Add(1)
 		var in synIn
 		json.Unmarshal(lines[got], &in)
 		raw, _ := hex.DecodeString(in.Hex)
